@@ -48,6 +48,7 @@ def render : GS.Bf.F → List Nat → String × List Nat
   | .or fs, seen => let (x, s1) := renders fs seen; ("or(" ++ x ++ ")", s1)
   | .tt, seen => ("⊤", seen)
   | .ff, seen => ("⊥", seen)
+  | .unique _, seen => ("unique", seen)   -- not reached: `opUniqueShape` renders the expansion, as `unique.String()` does
 def renders : List GS.Bf.F → List Nat → String × List Nat
   | [], seen => ("", seen)
   | [f], seen => render f seen
@@ -57,7 +58,7 @@ def renders : List GS.Bf.F → List Nat → String × List Nat
     (x ++ ", " ++ y, s2)
 end
 
-/-- `uniqueshape n` → `Unique(v0, …, v(n-1)).String()` with the dummy variables renamed `D0, D1, …`
+/-- `uniqueshape n` → `Unique(v0, …, v(n-1)).String()` (= `uniqueRec(v0, …).String()`) with the dummy variables renamed `D0, D1, …`
     in order of first appearance (the harness renames the `line-…` / `col-…` names of Go's output
     the same way), followed by ` | <number of dummies>`. -/
 def opUniqueShape (fs : List String) : Option String := do
